@@ -887,6 +887,11 @@ class _Frame:
                 arr, sc = (a, b) if isinstance(a, XArray) else (b, a)
                 want = isinstance(op, ast.Eq)
                 return XArray(arr.shape, [(x == sc) is want if isinstance(x == sc, bool) else bool(x == sc) is want for x in arr.data])
+            if isinstance(op, (ast.Eq, ast.NotEq)) and ((isinstance(a, XArray) and b is None) or (isinstance(b, XArray) and a is None)):
+                # numpy: `array == None` is element-wise (object arrays pre-filled with None)
+                arr = a if isinstance(a, XArray) else b
+                want = isinstance(op, ast.Eq)
+                return XArray(arr.shape, [(x is None) is want for x in arr.data])
             if isinstance(op, (ast.Eq, ast.NotEq)) and isinstance(a, XArray) and isinstance(b, XArray):
                 # numpy: elementwise, operands broadcast together
                 sh = XArray._bshape(a.shape, b.shape)
@@ -1355,6 +1360,8 @@ def _np_sqrt(x):
 def _np_zeros(shape, dtype=None, **kw):
     if isinstance(shape, (int, Fraction)):
         shape = (int(shape),)
+    if dtype is bool:
+        return XArray.full(tuple(int(s) for s in shape), False)
     a = XArray.full(tuple(int(s) for s in shape), Q(0))
     a.dtype = _kind_of(dtype) if dtype is not None else "f"  # numpy's default is float64
     return a
@@ -1363,6 +1370,8 @@ def _np_zeros(shape, dtype=None, **kw):
 def _np_ones(shape, dtype=None, **kw):
     if isinstance(shape, (int, Fraction)):
         shape = (int(shape),)
+    if dtype is bool:
+        return XArray.full(tuple(int(s) for s in shape), True)
     return XArray.full(tuple(int(s) for s in shape), Q(1))
 
 
@@ -1716,6 +1725,9 @@ _NP_FUNCS = {
     "argmin": lambda a, axis=None: _np_argext(a, axis, lambda x, y: y < x),
     "heaviside": lambda a, h0: _np_ewise2(a, h0, lambda x, h: Q(1) if x > 0 else Q(0) if x < 0 else h),
     "moveaxis": lambda a, s_, d_: _np_moveaxis(a, s_, d_),
+    "put": lambda a, ind, v: _np_put(a, ind, v),
+    "not_equal": lambda a, b: _np_ewise2(a, b, lambda x, y: not _same(x, y)),
+    "equal": lambda a, b: _np_ewise2(a, b, lambda x, y: _same(x, y)),
     "array_equal": lambda a, b: (lambda A, B: A.shape == B.shape and all(exact(x) == exact(y) for x, y in zip(A.data, B.data)))(XArray.from_nested(a), XArray.from_nested(b)),
     "floor": lambda a: _np_round_dir(a, -1),
     "ceil": lambda a: _np_round_dir(a, +1),
@@ -1790,6 +1802,31 @@ def _np_ravel_multi_index(multi, dims):
             idx = idx * d + v
         out.append(idx)
     return XArray((len(out),), out, "i")
+
+
+def _np_put(a, ind, v):
+    """np.put(a, ind, v): in-place store at flat indices (values cycled)"""
+    if not isinstance(a, XArray):
+        raise XArrayError("np.put on a non-array")
+    idx = [ind] if _is_num(ind) else list(XArray.from_nested(ind).data)
+    vals = [v] if (_is_num(v) or v is None or not isinstance(v, (XArray, list, tuple))) else list(XArray.from_nested(v).data)
+    for k, i in enumerate(idx):
+        i = int(exact(i))
+        if not -a.size <= i < a.size:
+            raise XRaise("IndexError", f"index {i} is out of bounds")
+        if a.dtype != "O":
+            a._check_kind(vals[k % len(vals)])
+        a.data[i % a.size] = vals[k % len(vals)]
+    return None
+
+
+def _same(x, y):
+    """== of two entries (None and arrays held by object arrays included)"""
+    if x is None or y is None:
+        return x is y
+    if isinstance(x, XArray) or isinstance(y, XArray):
+        return False if not (isinstance(x, XArray) and isinstance(y, XArray)) else x == y
+    return x == y
 
 
 def _np_ewise2(a, b, f):
@@ -2000,7 +2037,10 @@ def _np_broadcast_to(a, shape, **kw):
 def _np_full(shape, value, dtype=None, **kw):
     if isinstance(shape, (int, Fraction)):
         shape = (int(shape),)
-    return XArray.full(tuple(int(x) for x in shape), exact(value))
+    out = XArray.full(tuple(int(x) for x in shape), exact(value))
+    if dtype is object or (isinstance(dtype, str) and dtype in ("object", "O")) or getattr(dtype, "__name__", "") == "object":
+        out.dtype = "O"
+    return out
 
 
 def _np_broadcast_shapes(*shapes):
